@@ -27,6 +27,6 @@ CHECKS["C18"] = dict(
     level_text=("Generated-input search: thousands of histories over a fresh rbac.Service (gorp on memkv, ontology, group, search, auth, user, "
                 "provisioned built-in roles) with every Enforce / RetrievePoliciesForSubject result compared to an independent set-based "
                 "model, in committed and in-transaction views. Sampled, not exhaustive; no absence claim."),
-    level_note="Trusted: memkv transactions, the initial provisioned state as read back from the service, rapid, the Go toolchain. The API layer (api/access) and network transport are outside the check.",
+    level_note="Added later: transactions whose storage commit is refused (the committed view must not change), relationship indexes that fail to populate when the services open (every parent lookup through the table-scan fallback). Trusted: memkv transactions, the initial provisioned state as read back from the service, rapid, the Go toolchain. The API layer (api/access) and network transport are outside the check.",
     tests=[dict(name="TestC18", quick=dict(cases=3000, shards=2), thorough=dict(cases=20000, shards=16, timeout=1800))],
 )
